@@ -152,6 +152,15 @@ impl Monitor for QualMon {
                     });
                 }
             }
+            // a port that a BMCA run leaves in the master state has fallen back to being master
+            // itself: the instance is its own parent again (these worlds have one port)
+            if matches!(state, PS::Master) && run.n_ports() == 1 && parent.clock != run.cfg.node.identity {
+                out_local.push(Violation {
+                    signature: "master-after-bmca-but-foreign-parent".into(),
+                    message: format!("after a BMCA run the port is MASTER, but parentDS still names {:?}", parent),
+                    replay: json!(null),
+                });
+            }
             // everybody silent for five intervals: the port must not stay slave/passive
             let all_silent = st.h.iter().all(|h| h.any.len() >= 6 && h.any.iter().take(6).all(|x| !*x));
             if all_silent && matches!(state, PS::Slave | PS::Passive) {
@@ -395,10 +404,45 @@ fn same_prefix(a: &serde_json::Value, b: &serde_json::Value) -> Option<String> {
     None
 }
 
+/// interval-level world with two ports of one foreign clock on the segment (X.1 = peer 0 and
+/// X.2 = peer 4, same clockIdentity and data set): each is a foreign master of its own
+pub fn sibling_system(mon: &QualMon) -> WorldSys<'_, QualMon> {
+    let mut sys = interval_system(mon, 0);
+    let mut sib = sys.cfg.peers[0].clone();
+    sib.pid.port = 2;
+    sys.cfg.peers.push(sib);
+    let pat = |k: usize, i: usize| -> Vec<Ev> {
+        match i {
+            0 => vec![],
+            1 => vec![Ev::Ann(0, k)],
+            _ => vec![Ev::Ann(0, k), Ev::AnnDup(0, k)],
+        }
+    };
+    let mut macros = vec![];
+    for a in 0..3 {
+        for b in 0..3 {
+            let mut m = pat(0, a);
+            m.extend(pat(4, b));
+            m.push(Ev::Bmca);
+            macros.push(m);
+            if a == 1 && b == 1 {
+                macros.push(vec![Ev::Ann(0, 4), Ev::Ann(0, 0), Ev::Bmca]);
+            }
+        }
+    }
+    macros.push(vec![Ev::T(0, Timer::Receipt)]);
+    macros.push(vec![Ev::Ann(0, 1), Ev::Bmca]);
+    sys.alphabet = (0..macros.len()).map(Ev::Macro).collect();
+    sys.macros = macros;
+    sys.name = "intervals-sibling-ports".into();
+    sys
+}
+
 pub fn run(tier: Tier) -> i32 {
     let mut rep = Reporter::new("C06", tier, "model_checking");
     let mon2 = monitor(false);
     let mon3 = monitor(true);
+    let mon_sib = QualMon { own_peer: vec![2, 3], rank: vec![Some(2), Some(4), None, None, Some(3)] };
     let mut all = vec![];
     all.push(systems(&mon2, 0, false).remove(0));
     all.push(systems(&mon2, 65533, false).remove(0));
@@ -413,6 +457,7 @@ pub fn run(tier: Tier) -> i32 {
         all.push(systems(&mon2, 0, false).remove(1));
         all.extend(systems(&mon3, 0, true));
     }
+    all.push(sibling_system(&mon_sib));
     explore_all(&mut rep, &all, |s| if s.name.starts_with("intervals") { tier.pick(3, 5) } else { tier.pick(7, 10) }, tier.pick(9.0, 600.0));
     // long horizon (E2): sixteen intervals of a default pattern with at most k departures
     {
